@@ -26,6 +26,8 @@ from mxlpy.symbolic import to_symbolic_model
 from mxlpy.types import IntegrationFailure, Result
 
 if TYPE_CHECKING:
+    from collections.abc import Iterable
+
     from mxlpy.integrators import IntegratorProtocol, IntegratorType
     from mxlpy.model import Model
     from mxlpy.types import ArrayLike
@@ -35,6 +37,22 @@ _LOGGER = logging.getLogger(__name__)
 __all__ = [
     "Simulator",
 ]
+
+
+@dataclass(slots=True)
+class _ShiftedModel:
+    """Right hand side of a model whose integrator started counting at zero again.
+
+    After an override of variables a new integrator is created at t=0, results and
+    requests are shifted by the time already simulated. The model itself has to see
+    the absolute time, otherwise time dependent rates are evaluated too early.
+    """
+
+    model: Model
+    shift: float
+
+    def __call__(self, time: float, variables: Iterable[float]) -> tuple[float, ...]:
+        return self.model(time + self.shift, variables)
 
 
 @dataclass(
@@ -121,8 +139,11 @@ class Simulator:
                     ),
                     _jac,
                 )
+                # The integrator of a continued simulation starts counting at zero
+                # again, the model is evaluated at the absolute time
+                shift = 0.0 if self._time_shift is None else self._time_shift
                 jac_fn = lambda t, x: _jac_fn(  # noqa: E731
-                    t,
+                    t + shift,
                     x,
                     list(self.model.get_parameter_values().values()),
                 )
@@ -132,7 +153,9 @@ class Simulator:
 
         y0 = self.y0
         self.integrator = self._integrator_type(
-            self.model,
+            self.model
+            if self._time_shift is None
+            else _ShiftedModel(self.model, self._time_shift),
             tuple(y0[k] for k in self.model.get_variable_names()),
             jac_fn,
         )
